@@ -361,6 +361,8 @@ func (e *Engine) verifyFunctionOnce(ct *Contract, prop string, tier string) *fnR
 	e.curFn = ct.Fn
 	e.callbacksWriteDB = false
 	e.dropAtBound = false
+	e.noDBInv = ct.Flags["nodbinv"] != ""
+	e.loopsSeen = map[string]bool{}
 	e.dbErrors = true
 	e.reachCount = nil
 	e.unmodelled = map[string]int{}
@@ -607,6 +609,14 @@ func (e *Engine) verifyFunctionOnce(ct *Contract, prop string, tier string) *fnR
 				}
 			}
 		}
+	}
+	// a contract that states clauses for N loops is about a function that has (itself or in the helpers executed in
+	// place) at least N loops: if loops disappeared, the per-iteration clauses would otherwise vanish silently
+	if len(ct.Loops) > 0 && len(e.loopsSeen) < len(ct.Loops) {
+		o := getObl(ct.Short+".loops-present", "structure", fmt.Sprintf("the function (with the helpers executed in place) has the %d loops its contract speaks about", len(ct.Loops)), structProps, ct.Line)
+		o.Paths++
+		o.Status = "refuted"
+		o.Detail = fmt.Sprintf("only %d loop(s) were met while executing it", len(e.loopsSeen))
 	}
 	// loop-invariant and call-site obligations collected during execution: one solver session per program point
 	{
